@@ -685,6 +685,24 @@ for _prov, _tag in (("eqrel", "ds10"), ("trrel", "ds11"), ("trrel_uf", "ds12")):
     prog(f"{_prov}_plain", _ds_plain(_prov), f"ds {_tag}" + (" par" if _prov == "eqrel" else ""), bound=3, dom=3)
 
 
+# ------------------------------------------------------------------------------------------------ stress (large inputs)
+# run on databases with thousands of rows under 4-8 workers (C02, C05): contention windows of the concurrent indices
+# (first insertion of a lattice key, first value of an index key) are only hit when many keys are created at once
+prog("stress_lat", """
+rel src(int,int) input; rel link(int,int) input; lat m(int,max_i32); rel hot(int);
+m(k,v) <-- src(k,v);
+m(k,v) <-- m(j,v), link(j,k);
+hot(k) <-- m(k,v), if v >= 6;
+""", "stress par", bound=2, dom=2)
+
+prog("stress_rel", """
+rel edge(int,int) input; rel tgt(int); rel sw(int,int); rel low(int,int);
+tgt(y) <-- edge(_,y);
+sw(y,x) <-- edge(x,y);
+sw(x,y) <-- edge(x,y);
+low(x,y) <-- sw(x,y), if x < y;
+""", "stress par", bound=2, dom=2)
+
 # ------------------------------------------------------------------------------------------------ seeded random programs
 import randprog as _rp   # noqa: E402
 
